@@ -31,7 +31,7 @@ AnswerOK(act, e, s, pr) ==
 \* transition of the declarative state on one event (set of possible stacks)
 KwOf(op) == Rat2(op[3])
 Inh(act) == {act[i].p : i \in {i \in 1..Len(act) : Pool[act[i].ctx].rules # {}}} \ {NoP}
-Choices(act, c, kw) == IF kw # NoP THEN {kw} ELSE IF Inh(act) # {} THEN Inh(act) ELSE {Pool[c].default}
+Choices(act, c, kw) == IF kw # NoP THEN {kw} ELSE Inh(act) \cup {Pool[c].default}
 Push(ps, c, kw) == UNION {{<<[ctx |-> c, p |-> p]>> \o act : p \in Choices(act, c, kw)} : act \in ps}
 StepPoss(ps, op, res) ==
     CASE op[1] \in {"enable", "with_enter"} -> IF Valid(op[2]) THEN Push(ps, op[2], KwOf(op)) ELSE ps
